@@ -487,3 +487,9 @@ def san_weight(w, wmin, wmax, eps):
 def arrow_key(rec):
     """the undirected "a→b" key of an edge record (clematis/engine/snapshot.py: write_snapshot / load_latest_snapshot)"""
     return ite(rec['src'] <= rec['dst'], rec['src'] + '→' + rec['dst'], rec['dst'] + '→' + rec['src'])
+
+
+@spec
+def j_or_empty(x):
+    """`x or {}` for a Json value"""
+    return ite(jv_truthy(x), x, jv(dict()))
